@@ -42,7 +42,7 @@ func TestVF_C19(t *testing.T) {
 	}
 	var cases []vfCase
 	helpers := []string{"exit0", "exit3", "exit-now", "finish", "never", "late-write", "chooser-cancel"}
-	servers := []string{"finish", "cancel-before", "cancel-after", "keeps-sending", "quiet"}
+	servers := []string{"finish", "cancel-before", "cancel-before-short", "cancel-before-split", "cancel-after", "keeps-sending", "quiet"}
 	if noZm {
 		helpers = []string{"missing"}
 	}
@@ -50,7 +50,7 @@ func TestVF_C19(t *testing.T) {
 		for _, h := range helpers {
 			for _, sv := range servers {
 				for _, cc := range []int{0, 150, 700} {
-					if h == "never" && cc == 0 && sv != "cancel-before" && !vfThorough() {
+					if h == "never" && cc == 0 && !strings.HasPrefix(sv, "cancel-before") && !vfThorough() {
 						continue // needs the 20 s inactivity timers
 					}
 					if h == "chooser-cancel" && !up {
@@ -165,6 +165,11 @@ func vfZmodemCase(c *vfCtx, plan vfZmPlan) {
 		add(450, func() { sw(vfZmFinish) })
 	case "cancel-before":
 		add(40, func() { sw(cancelSeq) })
+	case "cancel-before-short": // a cancel as other implementations send it: eight CAN and eight BS
+		add(40, func() { sw(strings.Repeat("\x18", 8) + strings.Repeat("\x08", 8)) })
+	case "cancel-before-split": // the full sequence cut by the transport
+		add(40, func() { sw(cancelSeq[:10]) })
+		add(45, func() { sw(cancelSeq[10:]) })
 	case "cancel-after":
 		add(450, func() { sw(cancelSeq) })
 	case "keeps-sending":
@@ -197,7 +202,7 @@ func vfZmodemCase(c *vfCtx, plan vfZmPlan) {
 		return z == nil || z.stopped.Load()
 	}
 	limit := 6 * time.Second
-	if plan.Helper == "never" && plan.CtrlC == 0 && plan.Server != "cancel-before" {
+	if plan.Helper == "never" && plan.CtrlC == 0 && !strings.HasPrefix(plan.Server, "cancel-before") {
 		limit = 26 * time.Second // the 20 s inactivity timers
 	}
 	deadline := time.Now().Add(limit)
@@ -221,10 +226,14 @@ func vfZmodemCase(c *vfCtx, plan vfZmPlan) {
 	if _, err := os.Stat(filepath.Join(helperDir, ".vf_zm_log")); err == nil {
 		helperStarted = true
 	}
-	sessionWasReal := !(plan.Server == "cancel-before" && !helperStarted)
+	if strings.HasPrefix(plan.Server, "cancel-before") && helperStarted && plan.Helper != "missing" {
+		c.Viol("c19-helper-started-after-remote-cancel", "plan %+v: the remote side cancelled 40 ms after the start header (before the helper is launched), yet the local helper was started", plan)
+		return
+	}
+	sessionWasReal := !(strings.HasPrefix(plan.Server, "cancel-before") && !helperStarted)
 	// (1) the side still waiting got the cancel sequence
 	toServer := rig.siSink.Bytes()[i0:]
-	if sessionWasReal && plan.Server != "cancel-before" && !bytes.Contains(toServer, zmodemCancelFullSequence) {
+	if sessionWasReal && !strings.HasPrefix(plan.Server, "cancel-before") && !bytes.Contains(toServer, zmodemCancelFullSequence) {
 		c.Viol("c19-no-cancel-to-server", "plan %+v: the session ended (helper started=%v) but the remote side was not sent the cancel sequence; it received %q", plan, helperStarted, vfHead(toServer, 80))
 		return
 	}
